@@ -24,7 +24,7 @@ import (
 func init() {
 	core.Register(&core.Simple{
 		Id: "C17", Lvl: "exploration", Quick: 320, Thorough: 6000, PerBatch: 80, Width: 40, Timeout: 1500,
-		RuleText: "each case: an administrator disconnects a target (an ordinary named user, a user who agreed with an empty name, or a 1.5+ client between login and agreed; for the last no user-left notice is demanded) at a random IPv4 address with option none / temporary / permanent ban (optionally after an earlier expired or temporary entry for the same address; or the case injects a ban entry whose expiry lies 2 s .. 24 h in the past or 1 min .. 24 h in the future); oracles: reply, target connection closed, every other client receives a user-left notice, ban entry in memory and in Banlist.yaml with expiry bracketed by the harness clock readings + 30 min (no slack), then reconnect attempts from the same address (other port), near-miss addresses (a.b.c.d0, 1a.b.c.d, neighbour host) and an unrelated address, before and after a restart on the same ban file: a banned address must get handshake reply + one ban notice + close with its login transaction unprocessed, all others must log in. a stress batch has 4-8 administrators ban different users at the same moment and then restarts: every address must still be banned. distinct = (ban option or injected expiry class, restart phase, address class); non-trivial = every case",
+		RuleText: "each case: an administrator disconnects a target (an ordinary named user, a user who agreed with an empty name, or a 1.5+ client between login and agreed; for the last no user-left notice is demanded) at a random IPv4 address with option none / temporary / permanent ban (optionally after an earlier expired or temporary entry for the same address; or the case injects a ban entry whose expiry lies 2 s .. 24 h in the past or 1 min .. 24 h in the future); oracles: reply, target connection closed, every other client receives a user-left notice, ban entry in memory and in Banlist.yaml with expiry bracketed by the harness clock readings + 30 min (no slack), then reconnect attempts from the same address (other port; also over a connection that had been accepted before the ban but had not yet sent its handshake), near-miss addresses (a.b.c.d0, 1a.b.c.d, neighbour host) and an unrelated address, before and after a restart on the same ban file: a banned address must get handshake reply + one ban notice + close with its login transaction unprocessed, all others must log in. a stress batch has 4-8 administrators ban different users at the same moment and then restarts: every address must still be banned. distinct = (ban option or injected expiry class, restart phase, address class); non-trivial = every case",
 		Case:     runCase,
 		Extra: func(tier string, seed int64) []core.Batch {
 			n := 8
@@ -139,6 +139,7 @@ type attempt struct {
 	addr   string
 	banned bool
 	class  string
+	pre    *refclient.Client // a connection from addr that was accepted earlier and has not sent anything yet
 }
 
 // tryConnect connects from addr, sends handshake+login(+a chat line), and reports what happened.
@@ -148,7 +149,10 @@ func tryConnect(c *core.Case, srv *fixture.Server, at attempt, observers []*refc
 		o.Drain()
 	}
 	reg0 := len(srv.S.ClientMgr.List())
-	cl := refclient.Connect(srv, at.addr)
+	cl := at.pre
+	if cl == nil {
+		cl = refclient.Connect(srv, at.addr)
+	}
 	name := "Reconnector"
 	login := rc.Tran{Type: 107, ID: cl.NewID(), Fields: []rc.Field{rc.F(105, rc.Obfuscate([]byte("guest"))), rc.F(106, nil), rc.FS(102, name), rc.F(104, rc.U16(1))}}
 	chat := rc.Tran{Type: 105, ID: cl.NewID(), Fields: []rc.Field{rc.FS(101, "BANNED-USER-SPEAKS")}}
@@ -235,10 +239,10 @@ func runCase(c *core.Case) {
 	}
 	ip := fmt.Sprintf("%d.%d.%d.%d", a, b, cc, d)
 	near := []attempt{
-		{fmt.Sprintf("%s0:%d", ip, 1024+r.Intn(60000)), false, "suffix-extended"},
-		{fmt.Sprintf("1%s:%d", ip, 1024+r.Intn(60000)), false, "prefix-extended"},
-		{fmt.Sprintf("%d.%d.%d.%d:%d", a, b, cc, d+1, 1024+r.Intn(60000)), false, "neighbour-host"},
-		{fmt.Sprintf("10.200.%d.%d:%d", r.Intn(256), 1+r.Intn(250), 1024+r.Intn(60000)), false, "unrelated"},
+		{fmt.Sprintf("%s0:%d", ip, 1024+r.Intn(60000)), false, "suffix-extended", nil},
+		{fmt.Sprintf("1%s:%d", ip, 1024+r.Intn(60000)), false, "prefix-extended", nil},
+		{fmt.Sprintf("%d.%d.%d.%d:%d", a, b, cc, d+1, 1024+r.Intn(60000)), false, "neighbour-host", nil},
+		{fmt.Sprintf("10.200.%d.%d:%d", r.Intn(256), 1+r.Intn(250), 1024+r.Intn(60000)), false, "unrelated", nil},
 	}
 	adm, err := refclient.LoginAs(srv, "10.17.0.1:1", "admin", "", "Admin")
 	if err != nil {
@@ -264,6 +268,7 @@ func runCase(c *core.Case) {
 	}
 	banned := false
 	desc := mode
+	var pending *refclient.Client
 	banFile := filepath.Join(srv.ConfigDir, "Banlist.yaml")
 	switch mode {
 	case "kick", "kick-temp", "kick-perm":
@@ -291,6 +296,11 @@ func runCase(c *core.Case) {
 			return
 		}
 		c.Count("target_"+flavour, 1)
+		if r.Bool() {
+			// a second connection from the same address has been accepted but has not sent its handshake yet
+			pending = refclient.Connect(srv, fmt.Sprintf("%s:%d", ip, 1024+r.Intn(60000)))
+			c.Count("connections_pending_during_the_ban", 1)
+		}
 		if prior != "" {
 			// recorded once the target is connected (an active entry would otherwise keep it out)
 			srv.S.BanList.Add(ip, &priorUntil)
@@ -404,11 +414,18 @@ func runCase(c *core.Case) {
 	}
 	c.Describe(mode+"/"+desc+"/prior="+prior, map[string]any{"mode": mode, "detail": desc, "address": ip, "banned_expected": banned, "earlier_entry_for_the_address": prior})
 
-	same := attempt{fmt.Sprintf("%s:%d", ip, 1024+r.Intn(60000)), banned, "same-address-other-port"}
+	same := attempt{fmt.Sprintf("%s:%d", ip, 1024+r.Intn(60000)), banned, "same-address-other-port", nil}
 	attempts := append([]attempt{same}, near...)
 	// before restart: the same address and two of the others
 	if !tryConnect(c, srv, same, []*refclient.Client{adm, obs}, "live") {
 		return
+	}
+	if pending != nil {
+		// the connection that was already open when the ban was issued now sends its handshake and login: it comes
+		// from a banned address like any other (or, if no ban was requested, must be served)
+		if !tryConnect(c, srv, attempt{pending.Addr, banned, "accepted-before-the-ban", pending}, []*refclient.Client{adm, obs}, "live") {
+			return
+		}
 	}
 	for _, k := range r.Perm(len(near))[:2] {
 		if !tryConnect(c, srv, near[k], []*refclient.Client{adm, obs}, "live") {
